@@ -204,6 +204,52 @@ def _expr_inline(tu, f, node, helpers, log):
     return changed
 
 
+def _guarded_value(tu, f, st, helpers, log):
+    """T v = H(args);  with  H: { if(c) return E1; return E2; }   ->   T v = E1; if(!(c)) v = E2;
+    (the guarded-redefinition form the callers used before the helper was extracted).  Arguments must be plain values."""
+    if st.get("kind") != "DeclStmt" or len(kids(st)) != 1 or kids(st)[0].get("kind") != "VarDecl" or not kids(kids(st)[0]):
+        return None
+    vd = kids(st)[0]
+    init = strip(kids(vd)[-1], casts=True)
+    r = _resolve(tu, f, init, helpers)
+    if r is None:
+        return None
+    h, args = r
+    items = kids(h.body)
+    if len(items) != 2 or items[0].get("kind") != "IfStmt" or items[1].get("kind") != "ReturnStmt" or not kids(items[1]):
+        return None
+    ik = [x for x in (items[0].get("inner") or [])]
+    if len([x for x in ik if x]) != 2:
+        return None
+    then = ik[1]
+    then = kids(then)[0] if then.get("kind") == "CompoundStmt" and len(kids(then)) == 1 else then
+    if then.get("kind") != "ReturnStmt" or not kids(then):
+        return None
+    if not all(_pure_simple(a) for a in args) or len(args) != len(h.params) or _assigned_ids(h.body):
+        return None
+    inst = _instantiate(h, args, None)
+    if inst is None or inst[0]:
+        return None
+    body = inst[1]
+    iff, ret2 = kids(body)
+    cond = (iff.get("inner") or [])[0]
+    t2 = (iff.get("inner") or [])[1]
+    t2 = kids(t2)[0] if t2.get("kind") == "CompoundStmt" else t2
+    e1, e2 = kids(t2)[0], kids(ret2)[0]
+    rng = st.get("range", {})
+    vd2 = copy.copy(vd)
+    vd2["inner"] = [e1]
+    vd2["type"] = {"qualType": vd.get("type", {}).get("qualType", "double").replace("const ", "")}
+    ref = {"kind": "DeclRefExpr", "type": vd2["type"], "valueCategory": "lvalue", "range": rng,
+           "referencedDecl": {"id": vd.get("id"), "kind": "VarDecl", "name": vd.get("name"), "type": vd2["type"]}}
+    asg = {"kind": "BinaryOperator", "opcode": "=", "type": vd2["type"], "valueCategory": "lvalue", "range": rng, "inner": [ref, e2]}
+    neg = {"kind": "UnaryOperator", "opcode": "!", "isPostfix": False, "type": {"qualType": "bool"}, "range": rng,
+           "inner": [{"kind": "ParenExpr", "type": {"qualType": "bool"}, "range": rng, "inner": [cond]}]}
+    log.append((f.qual, h.qual))
+    return [{"kind": "DeclStmt", "range": rng, "inner": [vd2]},
+            {"kind": "IfStmt", "range": rng, "inner": [neg, {"kind": "CompoundStmt", "range": rng, "inner": [asg]}]}]
+
+
 STMT_HOLDERS = {"CompoundStmt": None, "IfStmt": (1, 2), "ForStmt": (4,), "WhileStmt": (1,), "DoStmt": (0,),
                 "CaseStmt": (1,), "DefaultStmt": (0,)}
 
@@ -218,6 +264,13 @@ def _pass(tu, f, helpers, log):
             return
         k = n.get("kind")
         slots = range(len(inner)) if k == "CompoundStmt" else STMT_HOLDERS.get(k, ())
+        if k == "CompoundStmt":
+            for i, c in enumerate(list(inner)):
+                rep2 = _guarded_value(tu, f, c, helpers, log) if c else None
+                if rep2 is not None:
+                    j = [x is c for x in inner].index(True)
+                    inner[j:j + 1] = rep2
+                    changed = True
         for i, c in enumerate(inner):
             if not c:
                 continue
